@@ -1,6 +1,6 @@
 """C06 Event handlers run one at a time, depth-first, in the documented order."""
 from mirlib import AnchorMissing, edge_label, switch_desc, describe_call, describe_operand, describe_place, describe_rvalue, dom_guards, guards, _suffix_match
-from rules.common import aggregates, callers_by_name, owner_def, where
+from rules.common import named_argument_rule, aggregates, callers_by_name, owner_def, where
 
 META = {
     "explanation": (
@@ -458,3 +458,6 @@ def run(ctx):
                     "handlers can run after on_stop (%s)" % [c.via_name for c in steps_after])
             sel = [c for c in ra.calls if c.via_name == "retain"]
             r.check(bool(sel) and not (after & {sel[0].block}), "run_agent/on_stop-after-loop", stops[0].loc(), "on_stop is outside the event loop")
+
+    with ctx.rule("C06.R8", "T5", "named arguments are passed in their parameters' positions (no two flags or ids change places at a call site)", floor=10) as r:
+        named_argument_rule(ctx, r, [("swimos_agent", "swimos_agent::agent_model::"), ("swimos_agent", "swimos_agent::event_handler"), ("swimos_agent", "swimos_agent::agent_lifecycle")], allow={})
